@@ -153,6 +153,19 @@ func diffParse(r *mon.Run, s string, class string, sampleEvery int) {
 			if !reflect.DeepEqual(normPL(again), normPL(got)) {
 				return false, fmt.Sprintf("parse(serialize(parse(s))) != parse(s); serialization %q", s2)
 			}
+			// the caller owns what the parser returned: edit it (as a parse-modify-serialize user does) so that any
+			// state shared between results shows up in the parses that follow
+			for i := range got {
+				if got[i].Params != nil {
+					got[i].Params[sh.Key("zz-edited")] = sh.Token("by-caller")
+					for k := range got[i].Params {
+						if k != "zz-edited" && nCase%2 == 0 {
+							delete(got[i].Params, k)
+						}
+					}
+				}
+				got[i].Label = "edited"
+			}
 			return true, ""
 		}, sampleEvery)
 	}
@@ -181,6 +194,12 @@ func diffParse(r *mon.Run, s string, class string, sampleEvery int) {
 			g2, _ := llFromImpl(again)
 			if !llEq(g2, g) {
 				return false, fmt.Sprintf("parse(serialize(parse(s))) != parse(s); serialization %q", s2)
+			}
+			for i := range got {
+				for j := range got[i] {
+					got[i][j] = sh.Token("edited")
+				}
+				got[i] = append(got[i], sh.Token("appended"))
 			}
 			return true, ""
 		}, sampleEvery)
